@@ -56,7 +56,7 @@ fn pk(h: &str) -> Option<PublicKey> {
     })
 }
 
-fn dump<E>(r: Result<Address, E>) -> String {
+fn dump<E: std::fmt::Display + std::fmt::Debug>(r: Result<Address, E>) -> String {
     match r {
         Ok(a) => format!(
             "OK {} {} {} {} {} {}",
@@ -67,7 +67,7 @@ fn dump<E>(r: Result<Address, E>) -> String {
             show_hex(&a.as_bytes()),
             show_hex(a.to_string().as_bytes())
         ),
-        Err(_) => "ERR".to_string(),
+        Err(e) => crate::err_shown(&e),
     }
 }
 
@@ -77,7 +77,7 @@ pub fn run(op: &str, args: &[&str]) -> Option<String> {
             let b = unhex(h)?;
             Some(match base58_monero::encode(&b) {
                 Ok(s) => format!("OK {}", show_hex(s.as_bytes())),
-                Err(_) => "ERR".to_string(),
+                Err(e) => crate::err_shown(&e),
             })
         }
         ("b58_dec", [h]) => {
@@ -86,9 +86,9 @@ pub fn run(op: &str, args: &[&str]) -> Option<String> {
             Some(match String::from_utf8(b) {
                 Ok(s) => match base58_monero::decode(&s) {
                     Ok(d) => format!("OK {}", show_hex(&d)),
-                    Err(_) => "ERR".to_string(),
+                    Err(e) => crate::err_shown(&e),
                 },
-                Err(_) => "ERR".to_string(),
+                Err(e) => crate::err_shown(&e),
             })
         }
         ("addr_from_bytes", [h]) => {
@@ -99,7 +99,7 @@ pub fn run(op: &str, args: &[&str]) -> Option<String> {
             let b = unhex(h)?;
             Some(match String::from_utf8(b) {
                 Ok(s) => dump(Address::from_str(&s)),
-                Err(_) => "ERR".to_string(),
+                Err(e) => crate::err_shown(&e),
             })
         }
         ("addr_from_hex", [h]) => {
